@@ -1118,9 +1118,9 @@ static int64_t c12_amount(rng_t *r, int64_t s) {
     case 3:
         return rng_chance(r, 1, 2) ? INT64_MAX - (int64_t)rng_below(r, 3) : INT64_MIN + (int64_t)rng_below(r, 3);
     case 4: /* overflow edges */
-        return s >= 0 ? (INT64_MAX - s) + (int64_t)rng_below(r, 3) - 1 : (INT64_MIN - s) - (int64_t)rng_below(r, 3) + 1;
+        return s >= 0 ? (int64_t)((uint64_t)(INT64_MAX - s) + rng_below(r, 3) - 1) : (int64_t)((uint64_t)(INT64_MIN - s) - rng_below(r, 3) + 1);
     case 5:
-        return -s + (int64_t)rng_below(r, 5) - 2;
+        return (int64_t)(0 - (uint64_t)s + rng_below(r, 5) - 2);
     case 6:
         return (int64_t)gen_value(r);
     default:
